@@ -1,7 +1,7 @@
 (* Props/C11.v — property theorems only.  Model: Model/Addr.v (hand-written,
    tied to pycel.excelutil by the correspondence run of harness/props/c11.py). *)
 From Coq Require Import ZArith List.
-From PV Require Import Lib.Py Model.Addr Proofs.C11 Proofs.C11Lattice Proofs.C11Parse.
+From PV Require Import Lib.Py Model.Addr Proofs.C11 Proofs.C11Lattice Proofs.C11Parse Proofs.C11Notation.
 Import ListNotations.
 Open Scope Z_scope.
 
@@ -27,6 +27,20 @@ Theorem C11_roundtrip_abs : forall a, on_sheet a -> sheet_ok_quoted (a_sheet a) 
   create (abs_address a) [] None = Ok (VA a).
 Proof. exact roundtrip_abs. Qed.
 Print Assumptions C11_roundtrip_abs.
+
+(* A1 text, R1C1 text and the (col, row) tuple constructor denote one cell *)
+Theorem C11_notations : forall s c r, sheet_ok s = true -> 1 <= c <= MAX_COL -> 1 <= r <= MAX_ROW ->
+  create (address (ACell s c r)) [] None = Ok (VA (ACell s c r))
+  /\ create (form_prefix 0 s ++ r1c1_abs_text r c) [] None = Ok (VA (ACell s c r))
+  /\ mk_cell s c r = Ok (ACell s c r).
+Proof. exact notations. Qed.
+Print Assumptions C11_notations.
+(* a relative reference R[dr]C[dc] from ANY anchor and ANY offsets is address_at_offset (wraps) *)
+Theorem C11_notation_relative : forall s ar ac dr dc, sheet_ok s = true ->
+  bind (create (form_prefix 0 s ++ r1c1_rel_text dr dc) [] (Some (ar, ac))) (fun v => Ok v)
+  = bind (address_at_offset (ACell s ac ar) dr dc) (fun a => Ok (VA a)).
+Proof. exact notation_relative. Qed.
+Print Assumptions C11_notation_relative.
 
 (* (c) a range enumerates height*width distinct cells, exactly those it contains *)
 Theorem C11_enumerate : forall s r, enumerable r ->
